@@ -64,7 +64,13 @@ structure DNode where
   acts : List (Nat × Rat)
 
 def pKey : P Key := do let a ← P.nat; let k ← P.nat; pure (a, k)
-def pAct : P (Nat × Rat) := do let n ← P.nat; let v ← P.q; pure (n, v)
+/-- a non-finite value (nan / inf) is carried as an absurdly large number so that the value clauses fail on it -/
+def pVal : P Rat := do
+  let v ← P.x
+  match v with
+  | .fin q => pure q
+  | _ => pure (10 ^ 40 : Nat)
+def pAct : P (Nat × Rat) := do let n ← P.nat; let v ← pVal; pure (n, v)
 def pDNode : P DNode := do
   let path ← P.list pKey; let n ← P.nat; let parts ← P.nats; let acts ← P.list pAct
   pure { path, n, parts, acts }
@@ -295,7 +301,7 @@ structure RNode where
 def pPair : P (Nat × Nat) := do let a ← P.nat; let b ← P.nat; pure (a, b)
 def pRNode : P RNode := do
   let path ← P.list pKey; let n ← P.nat; let tb ← P.list pPair
-  let km ← P.q; let v ← P.q; let actV ← P.q; let acts ← P.list pAct
+  let km ← pVal; let v ← pVal; let actV ← pVal; let acts ← P.list pAct
   pure { path, n, tb, km, v, actV, acts }
 
 structure RCallRec where
